@@ -1,0 +1,32 @@
+//go:build verif
+
+package proc
+
+import (
+	"time"
+
+	"github.com/polynetwork/poly/common"
+)
+
+// Accessors for the verification harness in /verif, compiled only with the build tag `verif`
+// (no behaviour change without the tag).
+
+// VerifSetPermittedAddrs fills the permitted-sender cache of handleTransaction and marks it fresh, so that the
+// admission path can be driven without a governance ledger state.
+func VerifSetPermittedAddrs(addrs []common.Address) {
+	lock.Lock()
+	defer lock.Unlock()
+	for _, a := range addrs {
+		permittedAddrMap[a] = true
+	}
+	lastTime = time.Now().Add(24 * time.Hour).Unix()
+}
+
+// VerifPoolCount is the number of entries in the verified-transaction pool.
+func (s *TXPoolServer) VerifPoolCount() int { return s.getTransactionCount() }
+
+// VerifPendingCount is len(allPendingTxs).
+func (s *TXPoolServer) VerifPendingCount() int { return s.getPendingListSize() }
+
+// VerifSlots is the number of free admission slots.
+func (s *TXPoolServer) VerifSlots() int { return len(s.slots) }
